@@ -224,6 +224,37 @@ func (c *comparator) parseBlock(p *Program, stmts []ast.Stmt, env map[string]ast
 				continue
 			}
 			c.parseBlock(p, st.Body.List, local, false)
+		case *ast.SwitchStmt:
+			if st.Tag != nil || st.Init != nil {
+				c.errorf(st.Pos(), "switch with a tag in comparator")
+				continue
+			}
+			for _, cl := range st.Body.List {
+				cc := cl.(*ast.CaseClause)
+				if len(cc.Body) != 1 {
+					c.errorf(cc.Pos(), "case with more than one statement in comparator")
+					continue
+				}
+				ret, ok := cc.Body[0].(*ast.ReturnStmt)
+				if !ok || len(ret.Results) != 1 {
+					c.errorf(cc.Pos(), "case that does not return in comparator")
+					continue
+				}
+				if cc.List == nil { // default
+					step := cmpStep{pos: cc.Pos()}
+					c.fillReturn(p, &step, ret.Results[0], env)
+					c.steps = append(c.steps, step)
+					continue
+				}
+				cond, ok := cc.List[0].(*ast.BinaryExpr)
+				if len(cc.List) != 1 || !ok || cond.Op != token.NEQ {
+					c.errorf(cc.Pos(), "unrecognised case condition in comparator")
+					continue
+				}
+				step := cmpStep{guardL: subst(cond.X, env), guardR: subst(cond.Y, env), pos: cc.Pos()}
+				c.fillReturn(p, &step, ret.Results[0], env)
+				c.steps = append(c.steps, step)
+			}
 		case *ast.ReturnStmt:
 			if len(st.Results) != 1 {
 				c.errorf(st.Pos(), "return without a single result")
@@ -498,6 +529,23 @@ func (c *Check) totalityRules(parsed map[*ssa.Function]*comparator) {
 		return func(keys []string) string {
 			for _, k := range keys {
 				if k == "fmt.Sprint("+prefix+".Info)" {
+					return ""
+				}
+			}
+			// or: every field of NodeInfo compared individually
+			if ni := p.structsOf("internal/graph", "NodeInfo"); len(ni) == 1 {
+				st := ni[0].Underlying().(*types.Struct)
+				all := true
+				for i := 0; i < st.NumFields(); i++ {
+					found := false
+					for _, k := range keys {
+						if k == prefix+".Info."+st.Field(i).Name() {
+							found = true
+						}
+					}
+					all = all && found
+				}
+				if all {
 					return ""
 				}
 			}
